@@ -16,6 +16,20 @@ Definition val_at (m : method) (s : gts cell) (t : Z) : cell :=
   | MBfill => bfill_at None (nona is_nan s) t
   end.
 
+(* the aligned row of a frame at t, and the operand cell presync hands the kernel for column x at t:
+   the frame's aligned cell if the frame has column x, otherwise the kernel's default scalar (_df_column) *)
+Definition row_val (m : method) (c : list Z) (r : gts (list cell)) (t : Z) : list cell :=
+  match m with
+  | MNone => at_ (nanrow c) r t
+  | MFfill => pad_at (nanrow c) (nona row_isnan r) t
+  | MBfill => bfill_at (nanrow c) (nona row_isnan r) t
+  end.
+Definition fcell (m : method) (d : cell) (c : list Z) (r : gts (list cell)) (x t : Z) : cell :=
+  if mem x c then row_get c (row_val m c r t) x else d.
+(* cell (t, x) of a result object *)
+Definition frame_cell (o : obj) (t x : Z) : cell :=
+  match o with OF c r => row_get c (at_ (nanrow c) r t) x | _ => None end.
+
 Section OPS.
   Variable opc : cell -> cell -> cell.
 
